@@ -12,7 +12,8 @@ A. Constructors.  `Init<Solver>` is the traced decision tree of `__init__` on fu
        ⊢ Init<Solver>.outcome p = .ok ↔ Documented p          (both directions: missing checks AND `<`/`≤` slips)
        ⊢ Init<Solver>.outcome p = .ok ∨ … = .raise "ValueError"  (every rejection is a ValueError)
    FALSE for Cog19 (accepts u₀ = 0 against "u0 must be strictly negative") and Cog4 ("gamma … must be < 1"
-   is only printed as a warning; the class default γ = 1.4 violates it): `finding_…`, with the part that holds.
+   is only printed as a warning; the class default γ = 1.4 violates it): modules FindingCog19 / FindingCog4, with
+   the part that holds.
 B. Time domain of `_run`: NaN exactly for t ≤ 0 where the code says "No valid solution at t=0"; Noh2/Noh2Cog raise
    ValueError exactly for t ≥ 1 ("The time t must be less than 1"); the other solvers have no domain test.
 C. No NaN/inf from the formula itself: on the admissible domain (the hypotheses of C17: positive coefficients,
@@ -20,7 +21,8 @@ C. No NaN/inf from the formula itself: on the admissible domain (the hypotheses 
    base under a real exponent, in exact arithmetic.
    FALSE for Cog13, Cog14 and Cog17 on the parameter range their own warnings call valid (α ∈ [-2,-1],
    β ∈ [1,3]): a negative base is raised to a real power (Python leaves ℝ: complex fields, or
-   `TypeError: must be real number, not complex` from `math.sqrt`, or ZeroDivisionError): `finding_…`.
+   `TypeError: must be real number, not complex` from `math.sqrt`, or ZeroDivisionError): modules
+   FindingCog13 / FindingCog14 / FindingCog17.
 -/
 import EPV.Gen.InitNoh
 import EPV.Gen.Noh
@@ -34,7 +36,6 @@ import EPV.Gen.InitCog2
 import EPV.Gen.Cog2
 import EPV.Gen.InitCog3
 import EPV.Gen.Cog3
-import EPV.Gen.InitCog4
 import EPV.Gen.Cog4
 import EPV.Gen.InitCog5
 import EPV.Gen.Cog5
@@ -62,14 +63,12 @@ import EPV.Gen.InitCog17
 import EPV.Gen.Cog17
 import EPV.Gen.InitCog18
 import EPV.Gen.Cog18
-import EPV.Gen.InitCog19
 import EPV.Gen.Cog19
 import EPV.Gen.InitCog20
 import EPV.Gen.Cog20
 import EPV.Gen.InitCog21
 import EPV.Gen.Cog21
-import EPV.Spec.AdmissibleHydro
-import EPV.Tactics
+import EPV.Lemmas.HydroTactics
 
 set_option linter.all false
 
@@ -78,23 +77,6 @@ open EPV EPV.Gen EPV.Spec.AdmissibleHydro
 namespace EPV.C20
 
 /-! ## A. constructors -/
-
-/-- acceptance tree against the catalogue: split the tree, decide each path -/
-macro "init_iff" : tactic =>
-  `(tactic| (simp only [epv_tree, Geom123, Geom23, Noh.Documented, Noh2.Documented, Noh2Cog.Documented,
-               Cog1.Documented, Cog2.Documented, Cog3.Documented, Cog4.Documented, Cog5.Documented, Cog6.Documented,
-               Cog7.Documented, Cog8.Documented, Cog9.Documented, Cog10.Documented, Cog11.Documented,
-               Cog12.Documented, Cog13.Documented, Cog14.Documented, Cog16.Documented, Cog17.Documented,
-               Cog18.Documented, Cog19.Documented, Cog20.Documented, Cog21.Documented] <;>
-             (try split_ifs) <;> (try simp only [epv_cond, not_lt, not_le] at *) <;>
-             first
-             | (simp_all; done)
-             | (constructor <;> intro h <;> simp_all <;> (try constructor) <;> (try linarith) <;> (try norm_num) <;>
-                 (try (intro hb; norm_num [hb] at *)))))
-
-/-- every leaf of a constructor tree is `ok` or `raise ValueError` -/
-macro "init_loud" : tactic =>
-  `(tactic| (simp only [epv_tree] <;> (try split_ifs) <;> simp))
 
 theorem init_noh_accepts_iff (p : InitNoh.P) : InitNoh.outcome p = .ok ↔ Noh.Documented p := by
   init_iff
@@ -242,50 +224,6 @@ theorem init_cog21_accepts_iff (p : InitCog21.P) : InitCog21.outcome p = .ok ↔
 theorem init_cog21_rejects_with_ValueError (p : InitCog21.P) :
     InitCog21.outcome p = .ok ∨ InitCog21.outcome p = .raise "ValueError" := by
   init_loud
-
-/-! ### Cog19: `u0 > 0` is rejected, `u0 = 0` is not -/
-
-/-- what `Cog19.__init__` enforces: u₀ ≤ 0 -/
-theorem init_cog19_accepts_iff_partial (p : InitCog19.P) :
-    InitCog19.outcome p = .ok ↔ (Geom123 p.geometry ∧ p.u0 ≤ 0) := by
-  init_iff
-
-/-- no documented-valid problem is rejected -/
-theorem init_cog19_accepts_documented (p : InitCog19.P) (h : Cog19.Documented p) : InitCog19.outcome p = .ok :=
-  (init_cog19_accepts_iff_partial p).mpr ⟨h.1, h.2.le⟩
-
-theorem init_cog19_rejects_with_ValueError (p : InitCog19.P) :
-    InitCog19.outcome p = .ok ∨ InitCog19.outcome p = .raise "ValueError" := by
-  init_loud
-
-/-- **Finding**: `Cog19(u0=0)` is accepted although "u0 must be strictly negative" (the test is `self.u0 > 0`) -/
-theorem finding_cog19_accepts_u0_zero :
-    InitCog19.outcome ⟨3, 0⟩ = .ok ∧ ¬ Cog19.Documented ⟨3, 0⟩ := by
-  constructor
-  · exact (init_cog19_accepts_iff_partial _).mpr ⟨Or.inr (Or.inr rfl), le_refl _⟩
-  · simp [Cog19.Documented]
-
-/-! ### Cog4: "gamma (must be < 1)" is only a printed warning -/
-
-/-- what `Cog4.__init__` enforces: the geometry flag only -/
-theorem init_cog4_accepts_iff_partial (p : InitCog4.P) : InitCog4.outcome p = .ok ↔ Geom123 p.geometry := by
-  init_iff
-
-theorem init_cog4_accepts_documented (p : InitCog4.P) (h : Cog4.Documented p) : InitCog4.outcome p = .ok :=
-  (init_cog4_accepts_iff_partial p).mpr h.1
-
-theorem init_cog4_rejects_with_ValueError (p : InitCog4.P) :
-    InitCog4.outcome p = .ok ∨ InitCog4.outcome p = .raise "ValueError" := by
-  init_loud
-
-/-- **Finding**: the class defaults of Cog4 (γ = 1.4, spherical) violate the documented "must be < 1" and are
-accepted (the constructor prints "*** warning: gamma > 1 gives T < 0 ***" and goes on) -/
-theorem finding_cog4_gamma_not_enforced :
-    InitCog4.outcome ⟨7 / 5, 3⟩ = .ok ∧ ¬ Cog4.Documented ⟨7 / 5, 3⟩ := by
-  constructor
-  · exact (init_cog4_accepts_iff_partial _).mpr (Or.inr (Or.inr rfl))
-  · simp only [Cog4.Documented]; norm_num
-
 /-! ## B. time domain of `_run` -/
 
 /-- Cog1: "No valid solution at t=0": NaN exactly for t ≤ 0 -/
@@ -403,7 +341,6 @@ theorem cog19_never_rejects (p : Cog19.P) (r t : ℝ) : Cog19.outcome p r t = .o
 /-- Cog20: no time or space domain is documented and none is tested -/
 theorem cog20_never_rejects (p : Cog20.P) (r t : ℝ) : Cog20.outcome p r t = .ok := by
   simp only [epv_tree] <;> (try split_ifs) <;> rfl
-
 /-! ## C. no NaN / inf from the formulas on the admissible domain -/
 
 /-- the leaves the theorems below name are all the `ok` leaves of the traced trees (a new leaf breaks the build) -/
@@ -411,13 +348,8 @@ theorem ok_leaves_pinned :
     Noh.okLeaves = [0, 1] ∧ Noh2.okLeaves = [1] ∧ Noh2Cog.okLeaves = [5, 7, 9] ∧ Cog1.okLeaves = [1] ∧
     Cog2.okLeaves = [1] ∧ Cog3.okLeaves = [0] ∧ Cog4.okLeaves = [0] ∧ Cog5.okLeaves = [0] ∧ Cog6.okLeaves = [0] ∧
     Cog8.okLeaves = [1] ∧ Cog9.okLeaves = [1] ∧ Cog11.okLeaves = [1, 2, 3] ∧ Cog12.okLeaves = [0, 1, 2] ∧
-    Cog18.okLeaves = [0] ∧ Cog19.okLeaves = [0, 1] ∧ Cog21.okLeaves = [1, 2] ∧
-    Cog13.okLeaves = [1] ∧ Cog14.okLeaves = [0] ∧ Cog17.okLeaves = [1] :=
-  ⟨rfl, rfl, rfl, rfl, rfl, rfl, rfl, rfl, rfl, rfl, rfl, rfl, rfl, rfl, rfl, rfl, rfl, rfl, rfl⟩
-
-/-- split a `WellDefined` conjunction and discharge every side condition by `positivity` -/
-macro "well_defined" : tactic => `(tactic| ((repeat' constructor) <;> positivity))
-
+    Cog18.okLeaves = [0] ∧ Cog19.okLeaves = [0, 1] ∧ Cog21.okLeaves = [1, 2] :=
+  ⟨rfl, rfl, rfl, rfl, rfl, rfl, rfl, rfl, rfl, rfl, rfl, rfl, rfl, rfl, rfl, rfl⟩
 /-- Noh (γ > 1, u₀ < 0, r > 0, t ≥ 0) -/
 theorem noh_well_defined (p : Noh.P) (r t : ℝ) (hγ : 1 < p.gamma) (hr : 0 < r) (ht : 0 ≤ t) :
     Noh.L0.WellDefined p r t ∧ Noh.L1.WellDefined p r t := by
@@ -549,56 +481,5 @@ example : ∃ (p : Cog2.P) (r t : ℝ), 0 < r ∧ 0 < t ∧ 0 < p.rho0 ∧ 1 < p
     0 < p.geometry :=
   ⟨⟨40, 0, 0, 6 / 5, 0, 0, 7 / 5, 3, 0, 9 / 5⟩, 1, 1, by norm_num, by norm_num, by norm_num, by norm_num, by norm_num,
     by norm_num, by norm_num⟩
-
-/-! ### the radiation-constant solvers leave ℝ on the range their own warnings call valid -/
-
-/-- **Finding** (Cog14): for EVERY α ∈ [-2,-1], β ∈ [1,3], geometry ∈ {1,2,3} and Γ > 0 the quantity
-b/(Γ (k-b)), b = (k-1-αk)/(2+α-2(β+4)), is negative: it is the sign of the base that `_run` raises to the power
--1/(5+2β) (times squares), so `temp0` is complex and `math.sqrt` raises
-"TypeError: must be real number, not complex" — not a ValueError, and not at construction. -/
-theorem finding_cog14_base_negative (p : Cog14.P) (hΓ : 0 < p.Gamma)
-    (hadv : Advised p.alpha p.beta) (hgeo : Geom123 p.geometry) :
-    (((p.geometry - 1) - 1 - p.alpha * (p.geometry - 1)) / (2 + p.alpha - 2 * (p.beta + 4))) / p.Gamma
-      / ((p.geometry - 1) - ((p.geometry - 1) - 1 - p.alpha * (p.geometry - 1)) / (2 + p.alpha - 2 * (p.beta + 4))) < 0 := by
-  obtain ⟨h1, h2, h3, h4⟩ := hadv
-  have hd : 2 + p.alpha - 2 * (p.beta + 4) < 0 := by linarith
-  rcases hgeo with h | h | h <;> rw [h]
-  · -- k = 0: b = -1/d > 0, k - b = -b < 0
-    have hb : 0 < ((1 : ℝ) - 1 - 1 - p.alpha * (1 - 1)) / (2 + p.alpha - 2 * (p.beta + 4)) := by
-      apply div_pos_of_neg_of_neg _ hd; norm_num
-    have hkb : (1 : ℝ) - 1 - ((1 : ℝ) - 1 - 1 - p.alpha * (1 - 1)) / (2 + p.alpha - 2 * (p.beta + 4)) < 0 := by linarith
-    exact div_neg_of_pos_of_neg (div_pos hb hΓ) hkb
-  · have hb : ((2 : ℝ) - 1 - 1 - p.alpha * (2 - 1)) / (2 + p.alpha - 2 * (p.beta + 4)) < 0 := by
-      apply div_neg_of_pos_of_neg _ hd; linarith
-    have hkb : 0 < (2 : ℝ) - 1 - ((2 : ℝ) - 1 - 1 - p.alpha * (2 - 1)) / (2 + p.alpha - 2 * (p.beta + 4)) := by linarith
-    exact div_neg_of_neg_of_pos (div_neg_of_neg_of_pos hb hΓ) hkb
-  · have hb : ((3 : ℝ) - 1 - 1 - p.alpha * (3 - 1)) / (2 + p.alpha - 2 * (p.beta + 4)) < 0 := by
-      apply div_neg_of_pos_of_neg _ hd; linarith
-    have hkb : 0 < (3 : ℝ) - 1 - ((3 : ℝ) - 1 - 1 - p.alpha * (3 - 1)) / (2 + p.alpha - 2 * (p.beta + 4)) := by linarith
-    exact div_neg_of_neg_of_pos (div_neg_of_neg_of_pos hb hΓ) hkb
-
-/-- … hence the `ok` leaf of Cog14 is not well defined at a concrete point of that range
-(α = -3/2, β = 2, spherical, class defaults otherwise with ρ₀ = 1) -/
-theorem finding_cog14_not_well_defined :
-    Advised (-3 / 2) 2 ∧ ¬ Cog14.L0.WellDefined ⟨40, 0, -3 / 2, 0, 2, 0, 0, 7 / 5, 3, 0, 1 / 10, 1⟩ 1 1 := by
-  refine ⟨by norm_num [Advised], ?_⟩
-  unfold Cog14.L0.WellDefined
-  norm_num
-
-/-- **Finding** (Cog13): at α = -3/2, β = 2 (inside the advised range), γ = 1.4, the base of the temperature
-amplitude `pow(c6*c8*c9, 1/(β+3))` is negative — the code returns a complex temperature -/
-theorem finding_cog13_not_well_defined :
-    Advised (-3 / 2) 2 ∧ ¬ Cog13.L1.WellDefined ⟨40, 0, -3 / 2, 0, 2, 0, 0, 7 / 5, 3, 0, 1 / 10, 1⟩ 1 1 := by
-  refine ⟨by norm_num [Advised], ?_⟩
-  unfold Cog13.L1.WellDefined
-  norm_num
-
-/-- **Finding** (Cog17): at α = -3/2, β = 2 (inside the advised range) the temperature amplitude is negative
-and is raised to the power -β-3, and the resulting ρ₀ base is raised to 1/(1-α): complex density -/
-theorem finding_cog17_not_well_defined :
-    Advised (-3 / 2) 2 ∧ ¬ Cog17.L1.WellDefined ⟨40, 0, -3 / 2, 0, 2, 0, 0, 7 / 5, 3, 0, 1 / 10⟩ 1 1 := by
-  refine ⟨by norm_num [Advised], ?_⟩
-  unfold Cog17.L1.WellDefined
-  norm_num
 
 end EPV.C20
